@@ -984,3 +984,57 @@ def _with_witness(interp, args, kwargs, node):
         w = interp.ctx.fresh("w", tt.sort())
         hyps.append(w == tt)
     return VBool(z3.Implies(z3.And(*hyps), B(interp, phi)) if hyps else B(interp, phi))
+
+
+@spec("bag_subset")
+def _bag_subset(interp, args, kwargs, node):
+    """every element produced by a is produced by b (candidate witness: the same generator variables in a site of b with
+    matching variable sorts; otherwise the existential is left to the solver)"""
+    a, b = args
+    ba, bb = bag_of(interp, a), bag_of(interp, b)
+    parts = []
+    for s in ba.sites:
+        s2 = s.rename(interp.ctx)
+        insts = []
+        for t in bb.sites:
+            if len(t.bvars) == len(s2.bvars) and all(x.sort() == y.sort() for x, y in zip(t.bvars, s2.bvars)):
+                t2 = t.rename(interp.ctx)
+                sub = list(zip(t2.bvars, s2.bvars))
+                inst = Site(t2.label, [], z3.substitute(t2.cond, *sub), vsubst(t2.elem, sub), t2.hvars,
+                            z3.substitute(t2.cond_h, *sub), z3.substitute(t2.cond_d, *sub))
+                insts.append(inst.exists_body(interp.veq(inst.elem, s2.elem)))
+        body = z3.Implies(s2.full_cond(), z3.Or(*(insts + [bag_contains(interp, bb, s2.elem)])))
+        parts.append(z3.ForAll(s2.all_vars(), body) if s2.all_vars() else body)
+    return VBool(z3.And(*parts) if parts else z3.BoolVal(True))
+
+
+@spec("one_edit_bag")
+def _one_edit_bag(interp, args, kwargs, node):
+    """all one-edit variants of x in index form (unfiltered: with repetitions): deletions, substitutions by a different letter of
+    the alphabet, insertions of a letter of the alphabet"""
+    x, A = args
+    ctx = interp.ctx
+    n, m = z3.Length(x.term), z3.Length(A.term)
+    i0 = ctx.fresh("i", z3.IntSort())
+    i1, k1 = ctx.fresh("i", z3.IntSort()), ctx.fresh("k", z3.IntSort())
+    i2, k2 = ctx.fresh("i", z3.IntSort()), ctx.fresh("k", z3.IntSort())
+    ch = lambda k: VStr(z3.SubString(A.term, k, 1))
+    sites = [
+        Site("del", [i0], z3.And(0 <= i0, i0 < n), _delete_at(interp, [x, VInt(i0)], {}, node)),
+        Site("sub", [i1, k1], z3.And(0 <= i1, i1 < n, 0 <= k1, k1 < m, z3.SubString(A.term, k1, 1) != z3.SubString(x.term, i1, 1)),
+             _sub_at(interp, [x, VInt(i1), ch(k1)], {}, node)),
+        Site("ins", [i2, k2], z3.And(0 <= i2, i2 <= n, 0 <= k2, k2 < m), _ins_at(interp, [x, VInt(i2), ch(k2)], {}, node)),
+    ]
+    return VList(CompBag(sites), "list")
+
+
+@spec("one_sub_bag")
+def _one_sub_bag(interp, args, kwargs, node):
+    x, A = args
+    ctx = interp.ctx
+    n, m = z3.Length(x.term), z3.Length(A.term)
+    i1, k1 = ctx.fresh("i", z3.IntSort()), ctx.fresh("k", z3.IntSort())
+    ch = VStr(z3.SubString(A.term, k1, 1))
+    return VList(CompBag([Site("sub", [i1, k1], z3.And(0 <= i1, i1 < n, 0 <= k1, k1 < m,
+                                                        z3.SubString(A.term, k1, 1) != z3.SubString(x.term, i1, 1)),
+                               _sub_at(interp, [x, VInt(i1), ch], {}, node))]), "list")
